@@ -25,6 +25,10 @@ async def handle(request):
         doc = json.loads(body)
     except ValueError:
         doc = None
+    if s['body'] == 'drop' and len(SEEN[key]) > 1:
+        # every request after the first one on this URL: take it and close the connection without an answer
+        request.transport.abort()
+        raise ConnectionResetError('scripted drop')
     reqs = doc if isinstance(doc, list) else [doc]
     out = []
     for r in reqs:
@@ -79,6 +83,8 @@ def classify(exc):
     import aiohttp
     if isinstance(exc, (requests.HTTPError, httpx.HTTPStatusError, aiohttp.ClientResponseError)):
         return 'http_error'
+    if isinstance(exc, (requests.ConnectionError, httpx.TransportError, aiohttp.ClientConnectionError, ConnectionError)):
+        return 'conn_error'
     if isinstance(exc, exceptions.IdentityError):
         return 'identity'
     if isinstance(exc, (exceptions.DeserializationError, json.JSONDecodeError)):
@@ -102,6 +108,8 @@ def run(n, scn_wrap, port, loop):
     req = make_request(s['req'])
     kw = dict(raise_for_status=s['raise'])
 
+    warm = pjrpc.Request('warm', [0], id=77) if s['body'] == 'drop' else None
+
     def finish(resp):
         if resp is None:
             return 'nothing'
@@ -112,6 +120,8 @@ def run(n, scn_wrap, port, loop):
             from pjrpc.client.backend import requests as be
             c = be.Client(url, **kw)
             try:
+                if warm is not None:
+                    c.send(warm)
                 o = finish(c.batch.send(req) if s['req'] == 'batch' else c.send(req))
             finally:
                 c.close()
@@ -119,6 +129,8 @@ def run(n, scn_wrap, port, loop):
             from pjrpc.client.backend import httpx as be
             c = be.Client(url, **kw)
             try:
+                if warm is not None:
+                    c.send(warm)
                 o = finish(c.batch.send(req) if s['req'] == 'batch' else c.send(req))
             finally:
                 c.close()
@@ -131,6 +143,8 @@ def run(n, scn_wrap, port, loop):
                     from pjrpc.client.backend import aiohttp as be
                     c = be.Client(url, **kw)
                 try:
+                    if warm is not None:
+                        await c.send(warm)
                     return await (c.batch.send(req) if s['req'] == 'batch' else c.send(req))
                 finally:
                     await c.close()
@@ -138,6 +152,8 @@ def run(n, scn_wrap, port, loop):
     except BaseException as e:  # noqa
         o = classify(e)
     seen = SEEN.get(key, [])
+    if warm is not None:
+        seen = seen[1:]         # what the server saw of THIS request (the earlier, successful one is not counted)
     expected = json.loads(json.dumps(req.to_json()))
     ev = [{'ev': 'Posted', 'n': len(seen), 'ctype': (seen[0][0] or 'none') if seen else 'none',
            'body_ok': bool(seen) and json.loads(seen[0][1]) == expected},
